@@ -332,14 +332,17 @@ Definition down_sum (g : graph) (c : vg_cert) (down : nat -> Z) (i : nat) : Z :=
 
 Definition cert_sizes (g : graph) (c : vg_cert) (down total : nat -> Z)
            (sizes : nat -> option Z) (per_vertex : bool) : bool :=
-  forallb (fun i => (down i <=? total i)%Z
-                    && implb (c_root c i) (down i =? total i)%Z
-                    && (down i =? down_sum g c down i + 1)%Z
-                    && match sizes i with None => true | Some s => (total i =? s)%Z end)
-          (seq 0 (nv g))
+  forallb (fun i => (down i <=? total i)%Z) (seq 0 (nv g))
+  && forallb (fun i => implb (c_root c i) (down i =? total i)%Z) (seq 0 (nv g))
+  && forallb (fun i => (down i =? down_sum g c down i + 1)%Z
+                       && match sizes i with None => true | Some s => (total i =? s)%Z end)
+             (seq 0 (nv g))
   && (negb per_vertex ||
       forallb (fun '(k, (u, v)) => implb (c_act c k) (total u =? total v)%Z)
               (combine (seq 0 (length (edges g))) (edges g))).
+
+Definition cert_size_ranges (g : graph) (down total : nat -> Z) : bool :=
+  in_range 1 (zn (nv g)) down (nv g) && in_range 1 (zn (nv g)) total (nv g).
 
 (* ---- specification ----------------------------------------------------- *)
 
